@@ -378,17 +378,38 @@ def rule_retry(ctx, scope='off', rule='A2.retry'):
     return
 
 
+def _ev3(test, v, val):
+    """Three-valued truth of `test` with the read result `v` bound to `val`; parts that do not look at `v` are unknown."""
+    from sa import intexpr as _ie
+    names = [x.id for x in ast.walk(test) if isinstance(x, ast.Name)]
+    if v not in names:
+        return None
+    if isinstance(test, ast.BoolOp):
+        vals = [_ev3(x, v, val) for x in test.values]
+        if isinstance(test.op, ast.And):
+            if any(x is False for x in vals):
+                return False
+            return True if all(x is True for x in vals) else None
+        if any(x is True for x in vals):
+            return True
+        return False if all(x is False for x in vals) else None
+    if isinstance(test, ast.UnaryOp) and isinstance(test.op, ast.Not):
+        x = _ev3(test.operand, v, val)
+        return None if x is None else (not x)
+    try:
+        return bool(_ie.ev(test, {v: val}))
+    except _ie.NotPure:
+        return None
+
+
 def _falsy_edge(test, lab, v):
-    """Taking branch `lab` of `test` implies that read result `v` is None/empty (nothing was consumed)."""
-    t = norm(test)
-    if lab == 'true':
-        if t in ('%s is None' % v, 'not %s' % v):
-            return True
-        if isinstance(test, ast.BoolOp) and isinstance(test.op, ast.And) and any(norm(x) in ('not %s' % v, '%s is None' % v) for x in test.values):
-            return True
-    if lab == 'false' and t == v:
-        return True
-    return False
+    """Taking branch `lab` of `test` implies that read result `v` is None/empty (nothing was consumed): the edge cannot
+    be taken when the read returned data - whatever way the test is written (`v is None`, `not v`, `v is not None` on its
+    false edge, a conjunction containing one of them)."""
+    x = _ev3(test, v, 1)          # 1 stands for "some data"
+    if x is None:
+        return False
+    return x != (lab == 'true')
 
 
 def _position_neutral(ctx, f, cfg, y, ynode, reads):
